@@ -40,6 +40,11 @@ Setups ==
     [driver |-> "GrandCanonical", ctx |-> "exch", tmplLen |-> 1, fixcom |-> FALSE,
      mobj |-> [m1 |-> Mobj("exch", NoLab, FALSE), m2 |-> Mobj("disp", NoLab, FALSE)],
      moves |-> [a |-> Entry("cexch", <<"m1", "m1">>, FALSE), b |-> Entry("single", <<"m1">>, FALSE), c |-> Entry("single", <<"m2">>, FALSE)]],
+    \* grand canonical: ONE trial that exchanges a particle and displaces one (plain composites, both orders): a displacement
+    \* after a deletion addresses the atoms that are left
+    [driver |-> "GrandCanonical", ctx |-> "exch", tmplLen |-> 1, fixcom |-> FALSE,
+     mobj |-> [m1 |-> Mobj("exch", NoLab, FALSE), m2 |-> Mobj("disp", NoLab, FALSE)],
+     moves |-> [a |-> Entry("plain", <<"m1", "m2">>, FALSE), b |-> Entry("plain", <<"m2", "m1">>, FALSE)]],
     \* isobaric: cell move (scaling), displacement, plain composite cell + displacement
     [driver |-> "Isobaric", ctx |-> "deform", tmplLen |-> 0, fixcom |-> FALSE,
      mobj |-> [m1 |-> Mobj("disp", NoLab, FALSE), m2 |-> Mobj("cell", NoLab, TRUE)],
